@@ -172,7 +172,7 @@ pub fn specs() -> Vec<PropSpec> {
         },
         PropSpec {
             id: "C08",
-            parts: &[("c08", 96, 960)],
+            parts: &[("c08", 96, 960), ("netcrash", 64, 1500), ("netcrashfaults", 64, 1500)],
             level: "fault_enumeration",
             tags: &["C08"],
             rule: "Each evaluation is one (operation, reached state) pair \
@@ -197,12 +197,30 @@ pub fn specs() -> Vec<PropSpec> {
                 the normalised observable state must equal that of the \
                 fault-free twin. distinct_nontrivial counts distinct \
                 (operation kind | mutation site class | fault variant) \
-                triples actually cut.",
+                triples actually cut. Parts netcrash / netcrashfaults \
+                are seeded histories of 20-50 operations on two instances \
+                (parents and the repository on A, CAs on B reached over \
+                the simulated network; reliable, or with lost requests, \
+                lost replies and duplicates) in which, several times per \
+                run, the process of one instance dies before the k-th \
+                storage or file-system mutation it makes during \
+                background work - in one of its own tasks, or while it \
+                serves a provisioning or publication request of the \
+                other instance, which then sees the connection break - \
+                and is started again from its directory; crashes that \
+                would fall into the window of the known finding \
+                object_set_ahead_of_command are moved to the next \
+                mutation. The instance must start, and at every later \
+                quiescence the relying-party walk, the payload \
+                comparison with the reference model and the delegation \
+                and revocation oracles of C01-C03 must hold as in a run \
+                without the crash (violations are reported as \
+                after_crash_*).",
             assumptions: CUT_ASSUMPTIONS,
         },
         PropSpec {
             id: "C09",
-            parts: &[("c09cuts", 48, 480), ("c09queue", 1600, 60000), ("c18", 160, 3000), ("c10fail", 480, 8000)],
+            parts: &[("c09cuts", 48, 480), ("c09queue", 1600, 60000), ("c18", 160, 3000), ("c10fail", 480, 8000), ("netcrash", 64, 1500)],
             level: "fault_enumeration",
             tags: &["C09", "LIVENESS"],
             rule: "Two kinds of evaluation. (1) c09cuts: one (operation, \
@@ -246,7 +264,11 @@ pub fn specs() -> Vec<PropSpec> {
                 write of the task store fails while a delta is \
                 processed: an RRDP update queued for an earlier, \
                 acknowledged publication must still take place (at the \
-                next quiescence the RRDP snapshot holds it).",
+                next quiescence the RRDP snapshot holds it). (4) \
+                netcrash: two-instance histories with process crashes of \
+                either instance in the middle of background tasks (see \
+                C08): background work must reach quiescence again after \
+                every restart.",
             assumptions: CUT_ASSUMPTIONS,
         },
         PropSpec {
